@@ -1,7 +1,6 @@
 (** Proofs about the TCP send queue model: for every operation sequence and every script of kernel
     accept counts / EWOULDBLOCK, (bytes handed to the kernel) ++ (bytes still queued) is exactly the
-    concatenation of the accepted frames — provided no partial write hits the offset defect of
-    nice_socket_queue_send_with_callback, which is characterised syntactically by [offbug]. *)
+    concatenation of the accepted frames. *)
 From Coq Require Import ZArith List Bool Lia.
 From Nice Require Import Stream.StreamBase Stream.StreamProofs Stream.TcpQueueModel.
 Import ListNotations.
@@ -14,7 +13,6 @@ Definition kernel_of (evs : list qev) : list Z := flat_map (fun e => match e wit
 Definition took (evs : list qev) : bool := existsb (fun e => match e with QS r => r =? 1 | _ => false end) evs.
 Definition accepted_of (r : qop * list qev) : list Z :=
   match r with (QSend _ bufs, evs) => if took evs then concat bufs else [] | _ => [] end.
-Definition no_trigger (evs : list qev) : Prop := forall bufs off, In (QPart bufs off) evs -> offbug bufs off = false.
 
 Definition kernel_all (tr : list (qop * list qev)) : list Z := flat_map (fun r => kernel_of (snd r)) tr.
 Definition accepted_all (tr : list (qop * list qev)) : list Z := flat_map accepted_of tr.
@@ -28,13 +26,6 @@ Lemma takeZ_len l : takeZ (lenZ l) l = l.
 Proof. apply takeZ_all. lia. Qed.
 
 (** ** the copy loop *)
-Lemma qcopy_empty t m room : sumlen t = 0 -> 0 <= m -> qcopy t m room = [].
-Proof.
-  revert m. induction t as [|b t IH]; intros m S M; simpl in *; auto.
-  pose proof (lenZ_nonneg b). pose proof (sumlen_nonneg t).
-  destruct (Z.leb_spec (lenZ b) m); [|lia]. apply IH; lia.
-Qed.
-
 Lemma qcopy_zero t : qcopy t 0 (sumlen t) = concat t.
 Proof.
   induction t as [|b t IH]; simpl; auto.
@@ -43,51 +34,34 @@ Proof.
   - assert (b = []) by (apply lenZ_nil; lia). subst. simpl. rewrite lenZ_nil0.
     replace (0 - 0) with 0 by lia. replace (0 + sumlen t) with (sumlen t) by lia. exact IH.
   - rewrite Z.sub_0_r. rewrite Z.min_r by lia. rewrite dropZ_nonpos by lia. rewrite takeZ_len.
-    destruct (Z.leb_spec (lenZ b) 0); [lia|].
     replace (lenZ b + sumlen t - lenZ b) with (sumlen t) by lia. rewrite IH. reflexivity.
 Qed.
 
-Lemma qcopy_ok bufs off : offbug bufs off = false -> 0 <= off ->
+Lemma qcopy_ok bufs off : 0 <= off ->
   qcopy bufs off (sumlen bufs - off) = dropZ off (concat bufs).
 Proof.
-  revert off. induction bufs as [|b t IH]; intros off OB O; simpl in *.
+  revert off. induction bufs as [|b t IH]; intros off O; simpl in *.
   - reflexivity.
   - pose proof (lenZ_nonneg b). pose proof (sumlen_nonneg t).
     destruct (Z.leb_spec (lenZ b) off).
     + rewrite dropZ_app_r by lia.
-      replace (lenZ b + sumlen t - off) with (sumlen t - (off - lenZ b)) by lia. apply IH; auto; lia.
+      replace (lenZ b + sumlen t - off) with (sumlen t - (off - lenZ b)) by lia. apply IH; lia.
     + rewrite dropZ_app_l by lia.
       rewrite Z.min_r by lia.
       assert (T : takeZ (lenZ b - off) (dropZ off b) = dropZ off b).
       { apply takeZ_all. rewrite lenZ_dropZ. lia. }
       rewrite T. f_equal.
       replace (lenZ b + sumlen t - off - (lenZ b - off)) with (sumlen t) by lia.
-      apply andb_false_iff in OB as [OB|OB].
-      * apply Z.ltb_ge in OB.
-        assert (M : (if lenZ b - off <=? off then off - (lenZ b - off) else 0) = 0).
-        { destruct (Z.leb_spec (lenZ b - off) off); lia. }
-        rewrite M. apply qcopy_zero.
-      * apply Z.ltb_ge in OB. assert (S0 : sumlen t = 0) by lia.
-        rewrite qcopy_empty; auto.
-        -- symmetry. apply lenZ_nil. rewrite <- sumlen_concat. exact S0.
-        -- destruct (Z.leb_spec (lenZ b - off) off); lia.
+      apply qcopy_zero.
 Qed.
 
-Lemma qelem_ok G bufs off : offbug bufs off = false -> 0 <= off -> off < sumlen bufs ->
+Lemma qelem_ok G bufs off : 0 <= off -> off < sumlen bufs ->
   qelem G bufs off (sumlen bufs) = Some (dropZ off (concat bufs)).
 Proof.
-  intros OB O L. unfold qelem. destruct (Z.leb_spec (sumlen bufs) off); [lia|].
+  intros O L. unfold qelem. destruct (Z.leb_spec (sumlen bufs) off); [lia|].
   rewrite qcopy_ok by auto. rewrite lenZ_dropZ, <- sumlen_concat.
   replace (sumlen bufs - off - (sumlen bufs - Z.max 0 (Z.min off (sumlen bufs)))) with 0 by lia.
   simpl. rewrite app_nil_r. reflexivity.
-Qed.
-
-Lemma offbug_zero bufs : offbug bufs 0 = false.
-Proof.
-  induction bufs as [|b t IH]; simpl; auto. pose proof (lenZ_nonneg b).
-  destruct (Z.leb_spec (lenZ b) 0).
-  - replace (0 - lenZ b) with 0 by lia. exact IH.
-  - replace (lenZ b - 0 <? 0) with false; auto. symmetry. apply Z.ltb_ge. lia.
 Qed.
 
 (** what pushing a (possibly absent) element does to the queued byte stream *)
@@ -99,7 +73,7 @@ Proof.
   pose proof (sumlen_nonneg bufs).
   destruct (Z.eq_dec (sumlen bufs) 0) as [E|E].
   - unfold qelem. rewrite E. simpl. symmetry. apply lenZ_nil. rewrite <- sumlen_concat. exact E.
-  - rewrite qelem_ok by (auto using offbug_zero; lia). rewrite dropZ_nonpos by lia. reflexivity.
+  - rewrite qelem_ok by lia. rewrite dropZ_nonpos by lia. reflexivity.
 Qed.
 
 Lemma sumlen_single d : sumlen [d] = lenZ d.
@@ -137,10 +111,10 @@ Proof.
 Qed.
 
 (** ** one operation *)
-Lemma step_inv G s o s1 e : softs (script s) = true -> q_step G s o = (s1, e) -> no_trigger e ->
+Lemma step_inv G s o s1 e : softs (script s) = true -> q_step G s o = (s1, e) ->
   kernel_of e ++ concat (queue s1) = concat (queue s) ++ accepted_of (o, e) /\ softs (script s1) = true.
 Proof.
-  intros S E NT. destruct o as [rel bufs| | |]; simpl in E.
+  intros S E. destruct o as [rel bufs| | |]; simpl in E.
   - (* send *)
     unfold q_send in E. pose proof (sumlen_nonneg bufs) as SN.
     destruct (queue s) as [|x q0] eqn:Q.
@@ -153,8 +127,7 @@ Proof.
       * set (n' := Z.max 0 (Z.min n (sumlen bufs))) in *.
         destruct (Z.ltb_spec n' (sumlen bufs)).
         -- inversion E; subst. simpl. split; auto.
-           assert (OB : offbug bufs n' = false) by (apply NT; simpl; auto).
-           rewrite qelem_ok by (auto; lia). simpl. rewrite !app_nil_r.
+           rewrite qelem_ok by lia. simpl. rewrite !app_nil_r.
            rewrite takeZ_dropZ.
            destruct rel; destruct (Z.ltb_spec (sumlen bufs) 0); try lia;
              destruct (Z.eqb_spec (sumlen bufs) 0); try lia; reflexivity.
@@ -190,14 +163,13 @@ Qed.
 
 (** ** any sequence of operations *)
 Theorem run_inv G : forall ops s s' tr, softs (script s) = true -> q_run G s ops = (s', tr) ->
-  (forall r, In r tr -> no_trigger (snd r)) ->
   kernel_all tr ++ concat (queue s') = concat (queue s) ++ accepted_all tr.
 Proof.
-  induction ops as [|o ops IH]; intros s s' tr S E NT; simpl in E.
+  induction ops as [|o ops IH]; intros s s' tr S E; simpl in E.
   - inversion E; subst. simpl. rewrite app_nil_r. reflexivity.
   - destruct (q_step G s o) as [s1 e] eqn:ST. destruct (q_run G s1 ops) as [s2 r] eqn:R. inversion E; subst.
-    destruct (step_inv G s o s1 e S ST (NT (o, e) (or_introl eq_refl))) as [K S1].
-    specialize (IH s1 s' r S1 R (fun x H => NT x (or_intror H))).
+    destruct (step_inv G s o s1 e S ST) as [K S1].
+    specialize (IH s1 s' r S1 R).
     unfold kernel_all, accepted_all in *. simpl.
     rewrite <- app_assoc, IH, app_assoc, K, <- app_assoc. reflexivity.
 Qed.
